@@ -74,7 +74,14 @@ def _is_origin(o):
 
 
 def _find_class(tree, name):
-    return next((n for n in tree.body if isinstance(n, ast.ClassDef) and n.name == name), None)
+    """top-level class `name`; `Outer.Inner` = class `Inner` in the body of the top-level class `Outer`"""
+    body, cls = tree.body, None
+    for part in name.split("."):
+        cls = next((n for n in body if isinstance(n, ast.ClassDef) and n.name == part), None)
+        if cls is None:
+            return None
+        body = cls.body
+    return cls
 
 
 def _find_func(body, name):
@@ -542,54 +549,87 @@ def _is_self_attr(n, self_name, *path):
     return pyexpr.attr_path(n) == [self_name, *path]
 
 
-def extract_contour_memo(path, class_name):
-    """shape of the `contour_lines` property -> ({"guarded": bool, "stored": bool}, [attribute paths of self it reads], lineno).
-    guarded: the FIRST statement is `if self._contour_lines [is not None]: return self._contour_lines`;
-    stored: `self._contour_lines = <not None>` occurs and the function ends in `return self._contour_lines`"""
+def extract_contour_memo(path, class_name, prop="contour_lines", attr="_contour_lines"):
+    """shape of the memoising property `prop` (memo attribute `attr`; default: the pass's `contour_lines`; the roll's is
+    `contour_line` / `_contour_line`) -> ({"guarded": bool, "stored": bool}, [attribute paths of self it reads], lineno).
+    guarded: the FIRST statement is `if self.<attr> [is not None]: return self.<attr>`;
+    stored: `self.<attr> = <not None>` occurs and the function ends in `return self.<attr>`"""
     tree = _parse(path)
     cls = _find_class(tree, class_name)
-    fn = _find_func(cls.body, "contour_lines") if cls is not None else None
+    fn = _find_func(cls.body, prop) if cls is not None else None
     if fn is None:
-        raise Untranslatable(f"{class_name}.contour_lines not found")
+        raise Untranslatable(f"{class_name}.{prop} not found")
     self_name = fn.args.args[0].arg
     body = [st for st in fn.body if not _docstring(st)]
     guarded = stored = False
     for i, st in enumerate(body):
         if isinstance(st, ast.If):
             t = st.test
-            plain = _is_self_attr(t, self_name, "_contour_lines")
+            plain = _is_self_attr(t, self_name, attr)
             notnone = isinstance(t, ast.Compare) and len(t.ops) == 1 and isinstance(t.ops[0], ast.IsNot) \
-                and _is_self_attr(t.left, self_name, "_contour_lines") and isinstance(t.comparators[0], ast.Constant) \
+                and _is_self_attr(t.left, self_name, attr) and isinstance(t.comparators[0], ast.Constant) \
                 and t.comparators[0].value is None
             if (plain or notnone) and not st.orelse and len(st.body) == 1 and isinstance(st.body[0], ast.Return) \
-                    and _is_self_attr(st.body[0].value, self_name, "_contour_lines"):
+                    and _is_self_attr(st.body[0].value, self_name, attr):
                 if i != 0:
-                    raise Untranslatable("memo guard of contour_lines is not the first statement")
+                    raise Untranslatable(f"memo guard of {prop} is not the first statement")
                 guarded = True
                 continue
-            raise Untranslatable("if in contour_lines: " + ast.unparse(t)[:60])
-        if isinstance(st, ast.Assign) and len(st.targets) == 1 and _is_self_attr(st.targets[0], self_name, "_contour_lines"):
+            raise Untranslatable(f"if in {prop}: " + ast.unparse(t)[:60])
+        if isinstance(st, ast.Assign) and len(st.targets) == 1 and _is_self_attr(st.targets[0], self_name, attr):
             if isinstance(st.value, ast.Constant) and st.value.value is None:
-                raise Untranslatable("contour_lines drops its own memo")
+                raise Untranslatable(f"{prop} drops its own memo")
             stored = True
     last = body[-1] if body else None
-    if stored and not (isinstance(last, ast.Return) and _is_self_attr(last.value, self_name, "_contour_lines")):
-        raise Untranslatable("contour_lines does not end in `return self._contour_lines`")
+    if stored and not (isinstance(last, ast.Return) and _is_self_attr(last.value, self_name, attr)):
+        raise Untranslatable(f"{prop} does not end in `return self.{attr}`")
     reads = []
     for node in ast.walk(fn):
         pth = pyexpr.attr_path(node) if isinstance(node, ast.Attribute) else None
-        if pth and pth[0] == self_name and pth[1] != "_contour_lines" and isinstance(getattr(node, "ctx", None), ast.Load):
+        if pth and pth[0] == self_name and pth[1] != attr and isinstance(getattr(node, "ctx", None), ast.Load):
             dotted = ".".join(pth[1:])
             if not any(r.startswith(dotted + ".") or r == dotted for r in reads):
                 reads = [r for r in reads if not dotted.startswith(r + ".")] + [dotted]
     return {"guarded": guarded, "stored": stored}, sorted(reads), fn.lineno
 
 
-def extract_reevaluate(path, class_name):
+def defines(path, class_name, member):
+    """does the body of (possibly nested) class `class_name` define a function / property `member`"""
+    cls = _find_class(_parse(path), class_name)
+    if cls is None:
+        raise Untranslatable(f"class {class_name} not found in {os.path.basename(path)}")
+    return _find_func(cls.body, member) is not None
+
+
+def extract_hook_reads(path, hook_owner, hook_name):
+    """the implementations registered on `<hook_owner>.<hook_name>` in the hookimpls module `path`, each a single
+    `return <attribute path of self>` -> [(function name, dotted path, lineno)] in source order (the LAST one of equal
+    tier is tried first); anything else is outside the subset"""
+    tree = _parse(path)
+    out = []
+    for node in tree.body:
+        if not isinstance(node, ast.FunctionDef):
+            continue
+        for dec in node.decorator_list:
+            info = pyexpr._decorator_info(dec)
+            if info is not None and info[0] == hook_owner and info[1] == hook_name:
+                body = [st for st in node.body if not _docstring(st)]
+                self_name = node.args.args[0].arg if node.args.args else None
+                pth = pyexpr.attr_path(body[0].value) if len(body) == 1 and isinstance(body[0], ast.Return) and body[0].value is not None else None
+                if info[3] or info[2] != 1 or self_name is None or not pth or pth[0] != self_name or len(pth) < 2:
+                    raise Untranslatable(f"{node.name} on {hook_owner}.{hook_name}: not a plain `return self.<path>`")
+                out.append((node.name, ".".join(pth[1:]), node.lineno))
+    if not out:
+        raise Untranslatable(f"no implementation of {hook_owner}.{hook_name} in {os.path.basename(path)}")
+    return out
+
+
+def extract_reevaluate(path, class_name, attr="_contour_lines"):
     """the body of `<class>.reevaluate_cache` as a list of ops, or None when the class does not define the method:
        "super"  super().reevaluate_cache()          "roll"  self.roll.reevaluate_cache()
-       "reset"  self._contour_lines = None           "recompute"  HookHost's loop `for n in list(self.__cache__.keys()): ...
-                                                                  self.__cache__[n] = hook.get_result(self)`"""
+       "reset"  self.<attr> = None                   "recompute"  HookHost's loop `for n in list(self.__cache__.keys()): ...
+                                                                  self.__cache__[n] = hook.get_result(self)`
+    (`attr` = the memo attribute of the object: `_contour_lines` on a pass, `_contour_line` on a roll)"""
     tree = _parse(path)
     cls = _find_class(tree, class_name)
     if cls is None:
@@ -611,7 +651,7 @@ def extract_reevaluate(path, class_name):
             if _is_self_attr(f, self_name, "roll", "reevaluate_cache"):
                 ops.append("roll")
                 continue
-        if isinstance(st, ast.Assign) and len(st.targets) == 1 and _is_self_attr(st.targets[0], self_name, "_contour_lines") \
+        if isinstance(st, ast.Assign) and len(st.targets) == 1 and _is_self_attr(st.targets[0], self_name, attr) \
                 and isinstance(st.value, ast.Constant) and st.value.value is None:
             ops.append("reset")
             continue
